@@ -109,7 +109,8 @@ fn case(cx: &mut CaseCtx, input: Input, cfg: &GenCfg) -> CaseResult {
         // module / definition name collisions make binding order dependent (F-15): not judged here
         let ambiguous = r.table.map.keys().any(|k| {
             let v = r.table.exact(k);
-            v.iter().any(|e| e.kind == crate::refcheck::EKind::Module) && v.iter().any(|e| e.kind != crate::refcheck::EKind::Module)
+            v.iter().any(|e| e.kind == crate::refcheck::EKind::Module)
+                && v.iter().any(|e| !matches!(e.kind, crate::refcheck::EKind::Module | crate::refcheck::EKind::Primitive))
         });
         if ambiguous {
             // A definition with the scoped name of a module of some file: ill-formed ("names unique
@@ -410,8 +411,8 @@ const ENUMS_TOTAL: u64 = 2 * 2 * 8 * 3 * 3 * 9;
 /// Every key type up to nesting depth 2 (through aliases and compact structs of compact structs),
 /// in four positions.
 fn keys_program(mut idx: u64) -> Program {
-    let position = (idx % 4) as usize;
-    idx /= 4;
+    let position = (idx % 8) as usize;
+    idx /= 8;
     let via_alias = idx % 2 == 1;
     idx /= 2;
     // leaf kinds
@@ -539,12 +540,45 @@ fn keys_program(mut idx: u64) -> Program {
                 })),
             }],
         })),
-        _ => defs.push(DefM::Struct(StructM {
+        3 => defs.push(DefM::Struct(StructM {
             pre: Prelude::default(),
             compact: false,
             name: "Host".into(),
             fields: vec![fld("d", TypeM::result(TypeM::prim("bool"), dict.opt()))],
         })),
+        // the field of an enumerator (directly, and nested in a sequence)
+        4 | 5 => defs.push(DefM::Enum(EnumM {
+            pre: Prelude::default(),
+            compact: false,
+            unchecked: false,
+            name: "Host".into(),
+            underlying: None,
+            enumerators: vec![
+                EnumeratorM { pre: Prelude::default(), name: "Plain".into(), fields: None, value: None, effective: 0 },
+                EnumeratorM {
+                    pre: Prelude::default(),
+                    name: "WithFields".into(),
+                    fields: Some(vec![fld("x", TypeM::prim("bool")), fld("d", if position == 4 { dict } else { TypeM::seq(dict.opt()) })]),
+                    value: None,
+                    effective: 1,
+                },
+            ],
+        })),
+        // a parameter; a member of a return tuple
+        _ => {
+            let prm = |name: &str, ty: TypeM| ParamM { pre: Prelude::default(), tag: None, name: name.to_owned(), stream: false, ty };
+            let (params, ret) = if position == 6 {
+                (vec![prm("a", TypeM::prim("bool")), prm("d", dict)], RetM::None)
+            } else {
+                (vec![], RetM::Tuple(vec![prm("a", TypeM::prim("bool")), prm("d", dict)]))
+            };
+            defs.push(DefM::Interface(InterfaceM {
+                pre: Prelude::default(),
+                name: "Host".into(),
+                bases: vec![],
+                ops: vec![OpM { pre: Prelude::default(), idempotent: false, name: "op".into(), params, ret }],
+            }))
+        }
     }
     let mut p = Program {
         files: vec![FileM {
@@ -561,7 +595,7 @@ fn keys_program(mut idx: u64) -> Program {
     p
 }
 
-const KEYS_TOTAL: u64 = 4 * 2 * 3 * 14;
+const KEYS_TOTAL: u64 = 8 * 2 * 3 * 14;
 
 /// Every attribute x target x argument shape.
 fn attrs_program(mut idx: u64) -> Program {
@@ -586,8 +620,8 @@ fn attrs_program(mut idx: u64) -> Program {
     ];
     let (d, args) = ATTRS[(idx % 17) as usize];
     idx /= 17;
-    let target = (idx % 14) as usize;
-    idx /= 14;
+    let target = (idx % 20) as usize;
+    idx /= 20;
     let twice = idx % 2 == 1;
     let mut attrs = vec![AttrM::new(d, args)];
     if twice {
@@ -616,12 +650,21 @@ fn attrs_program(mut idx: u64) -> Program {
             pre: pre(t == 2),
             compact: false,
             name: "S".into(),
-            fields: vec![FieldM {
-                pre: pre(t == 3),
-                tag: None,
-                name: "f".into(),
-                ty: ty(t == 4),
-            }],
+            fields: vec![
+                FieldM {
+                    pre: pre(t == 3),
+                    tag: None,
+                    name: "f".into(),
+                    ty: ty(t == 4),
+                },
+                // the element type of an anonymous type
+                FieldM {
+                    pre: pre(false),
+                    tag: None,
+                    name: "n".into(),
+                    ty: TypeM::seq(ty(t == 19)),
+                },
+            ],
         }),
         DefM::Interface(InterfaceM {
             pre: pre(t == 5),
@@ -632,7 +675,7 @@ fn attrs_program(mut idx: u64) -> Program {
                     pre: pre(t == 6),
                     idempotent: false,
                     name: "noreturn".into(),
-                    params: vec![prm("p", t == 7, false)],
+                    params: vec![prm("p", t == 7, t == 16)],
                     ret: RetM::None,
                 },
                 OpM {
@@ -640,7 +683,7 @@ fn attrs_program(mut idx: u64) -> Program {
                     idempotent: false,
                     name: "returns".into(),
                     params: vec![],
-                    ret: RetM::Tuple(vec![prm("r1", t == 9, false), prm("r2", false, false)]),
+                    ret: RetM::Tuple(vec![prm("r1", t == 9, t == 17), prm("r2", false, false)]),
                 },
             ],
         }),
@@ -653,7 +696,13 @@ fn attrs_program(mut idx: u64) -> Program {
             enumerators: vec![EnumeratorM {
                 pre: pre(t == 11),
                 name: "A".into(),
-                fields: None,
+                // (a field of an enumerator and its type are targets too)
+                fields: Some(vec![FieldM {
+                    pre: pre(t == 14),
+                    tag: None,
+                    name: "g".into(),
+                    ty: ty(t == 15),
+                }]),
                 value: None,
                 effective: 0,
             }],
@@ -665,7 +714,11 @@ fn attrs_program(mut idx: u64) -> Program {
         DefM::Alias(AliasM {
             pre: pre(t == 13),
             name: "T".into(),
-            ty: TypeM::prim("bool"),
+            ty: TypeM {
+                attrs: if t == 18 { attrs.clone() } else { vec![] },
+                kind: TypeK::Prim("bool".into()),
+                optional: false,
+            },
         }),
     ];
     Program {
@@ -681,7 +734,7 @@ fn attrs_program(mut idx: u64) -> Program {
     }
 }
 
-const ATTRS_TOTAL: u64 = 17 * 14 * 2;
+const ATTRS_TOTAL: u64 = 17 * 20 * 2;
 
 fn enumerated(cx: &mut CaseCtx, input: Input, build: fn(u64) -> Program, label: &'static str) -> CaseResult {
     let mut p = build(input.index());
@@ -699,7 +752,7 @@ impl Check for C04 {
         "C04"
     }
     fn rule(&self) -> String {
-        format!("families: injected = proptest choice sequences -> well-formed program with 0..3 violations injected from a {}-entry catalogue at boundary values (the reference checker recomputes the violated rule set from the mutated model); tags3 / streams / enums / keys / attributes = bounded-exhaustive small-scope families (every tag-optional-compact assignment over <= 3 members in four hosts; every stream placement over <= 3 members; every enum modifier x underlying x emptiness x fields x value shape; every key leaf x wrapping depth <= 2 x alias x position; every attribute x target x repetition). Oracle both ways: well-formed <=> no error; every reported error code belongs to a violated rule. Non-trivial = ill-formed, or >= 2 rule-relevant features; distinct by hash of the abstract program", CATALOGUE.len())
+        format!("families: injected = proptest choice sequences -> well-formed program with 0..3 violations injected from a {}-entry catalogue at boundary values (the reference checker recomputes the violated rule set from the mutated model); tags3 / streams / enums / keys / attributes = bounded-exhaustive small-scope families (every tag-optional-compact assignment over <= 3 members in four hosts; every stream placement over <= 3 members; every enum modifier x underlying x emptiness x fields x value shape; every key leaf x wrapping depth <= 2 x alias x 8 positions incl. enumerator fields, parameters and return members; every attribute x 20 targets (declarations and the types written in them, incl. enumerator fields and element types) x repetition). Oracle both ways: well-formed <=> no error; every reported error code belongs to a violated rule. Non-trivial = ill-formed, or >= 2 rule-relevant features; distinct by hash of the abstract program", CATALOGUE.len())
     }
     fn assumptions(&self) -> Vec<String> {
         vec![
